@@ -168,9 +168,12 @@ class Term(ItemSequenceT[T]):
                     return tuple(_filter_items(((elem1, exp1),
                                                 (elem2, exp2))))
                 else:
+                    # elements with the same sort key (i.e. not convertible
+                    # units of the same type) need a second sort criterion
                     items = sorted(((elem1, exp1), (elem2, exp2)),
                                    key=lambda item:
-                                   self.norm_sort_key(item[0]))
+                                   (self.norm_sort_key(item[0]),
+                                    id(item[0])))
                     return tuple(_filter_items(items))
             # third most relevant case: non-numeric + numeric element
             if isinstance(elem2, Rational) and \
@@ -190,9 +193,13 @@ class Term(ItemSequenceT[T]):
                                                        idx + 1),
                          item)
                         for idx, item in enumerate(items))
+            items_sorted = sorted(map_iter, key=sort_key)
         else:
             map_iter = ((norm_sort_key(item[0]), item) for item in items)
-        items_sorted = sorted(map_iter, key=sort_key)
+            # elements with the same sort key (i.e. not convertible units of
+            # the same type) need a second sort criterion
+            items_sorted = sorted(map_iter,
+                                  key=lambda x: (x[0], id(x[1][0])))
         res_items: ItemListT[T] = []
         num_elem: Rational = ONE
         key: int
